@@ -109,6 +109,10 @@ def test_vars(fn):
                 names.add(n.func.id)
             for a in n.args:
                 grab(a)
+            # the text a node is built from is tracked (`name.value in KEYWORDS` later on): a local handed to `value=`
+            for k in n.keywords:
+                if k.arg == 'value':
+                    grab(k.value)
         elif isinstance(n, ast.Attribute):
             grab(n.value)
     return names
@@ -226,6 +230,10 @@ class Interp:
             elif v[0] == 'node' and e.attr == 'value' and len(v) > 2 and v[2] is not None:
                 res.append((s, v[2]))
             elif v[0] == 'opaque' or v[0] == 'node':
+                res.append((s, ('opaque',)))
+            elif v[0] == 'stale' and e.attr in ('value', 'start', 'end'):
+                # a token consumed before two paths were merged: what it was is no longer known, its text and
+                # position are just some values (a later keyword test on them is refused, not guessed)
                 res.append((s, ('opaque',)))
             else:
                 raise Unsupported('attr %s on %s line %s' % (e.attr, v[0], e.lineno))
